@@ -22,7 +22,7 @@ import itertools
 from dataclasses import dataclass, field
 from typing import Any, Dict, List, Optional, Set, Tuple, Union
 
-from .model import Program, CallGraph, FuncInfo, ClassInfo, TypeEnv, Module, strip_opt, ANY, t_cls
+from .model import Program, CallGraph, FuncInfo, ClassInfo, TypeEnv, Module, strip_opt, ANY, t_cls, iter_own_nodes
 from .report import AnalysisError
 
 _ids = itertools.count(1)
@@ -349,7 +349,12 @@ class Evaluator:
                 env[p.arg] = kwargs[p.arg]
             elif d is not None:
                 env[p.arg] = self.eval(d, {}, fn, depth + 1)
+        is_gen = any(isinstance(x, (ast.Yield, ast.YieldFrom)) for x in iter_own_nodes(fn.node))
+        if is_gen:
+            env['__yield__'] = TList([])
         falls, returns = self._block(fn.node.body, env, fn, depth)
+        if is_gen:
+            return env['__yield__']
         if falls:
             returns = returns + [(TRUE, TNone)]
         if not returns:
@@ -546,6 +551,16 @@ class Evaluator:
                     self._assign(s.target, self.opaque(f'augmented assignment on {type(cur).__name__}'), env, fn, depth)
             else:
                 self._assign(s.target, self.opaque('augmented assignment'), env, fn, depth)
+        elif isinstance(s, ast.Expr) and isinstance(s.value, (ast.Yield, ast.YieldFrom)) and '__yield__' in env:
+            # a generator is evaluated as the list of what it yields: `yield x` appends, `yield from xs` extends
+            y = s.value
+            if y.value is not None:
+                call = ast.Call(func=ast.Attribute(value=ast.Name(id='__yield__', ctx=ast.Load()),
+                                                   attr='append' if isinstance(y, ast.Yield) else 'extend', ctx=ast.Load()),
+                                args=[y.value], keywords=[])
+                ast.copy_location(call, s)
+                ast.fix_missing_locations(call)
+                self.eval(call, env, fn, depth)
         elif isinstance(s, ast.Expr):
             self.eval(s.value, env, fn, depth)
         elif isinstance(s, (ast.For, ast.AsyncFor)):
@@ -1648,6 +1663,8 @@ class Evaluator:
             return Cond('opaque', (name,))
         if name == 'len' and args:
             return ('len', args[0])
+        if name == 'bool' and len(args) == 1 and not kwargs:
+            return self.truthy(args[0])
         if name in ('sum', 'min', 'max', 'abs') and args:
             return ('num', name)            # a number the templates do not depend on textually (only tested in conditions)
         if name in ('list', 'tuple') and args:
